@@ -1,6 +1,6 @@
 (* C18 - backpressure bounds buffering, loses nothing, and always resumes.
    This file only pins statements. *)
-From Amq Require Import Lib.Base Gen.Consts Model.Wire Model.Frames Model.OutBuf Model.Collector Model.Slots Model.Core Model.Loop Proofs.OutBuf Proofs.Loop Proofs.CoreContent Proofs.CoreInv Proofs.CoreMore Model.Wake Proofs.Wake.
+From Amq Require Import Lib.Base Gen.Consts Model.Wire Model.Frames Model.OutBuf Model.Collector Model.Slots Model.Core Model.Loop Proofs.OutBuf Proofs.Loop Proofs.CoreContent Proofs.CoreInv Proofs.CoreMore Model.Wake Proofs.Wake Lib.RsVal Gen.SrcRegister Proofs.RegisterSrc.
 
 (* the throttle is a hysteresis: channels stop being polled only above the high-water mark, are polled again only at or below the low-water mark, and nothing changes in between *)
 Theorem C18_throttle_spec : forall (listening : bool) (outlen high low : N), low <= high -> match throttle_of listening outlen high low with | TNone => (listening = true -> outlen <= high) /\ (listening = false -> low < outlen) | TDeregister => listening = true /\ high < outlen | TReregister => listening = false /\ outlen <= low end.
@@ -23,11 +23,11 @@ Theorem C18_write_interest : forall (l : loop) (outlen outlen' high low : N), lo
 Proof. exact write_interest. Qed.
 
 (* a channel's mailbox is taken from in FIFO order, each buffer appended whole; what is not taken (the loop stops as soon as it finds the out-buffer above the high-water mark) stays in the mailbox, in order, and a re-poll of the channels is owed - nothing is lost or reordered across throttling *)
-Theorem C18_mailbox_fifo : forall (n : N) (bufs : list bytes) (fuel : nat) (c : core) (s : slot), n <> 0 -> alookup n (c_slots c) = Some s -> s_mail s = map MsgSend bufs -> s_mail_tx s = true -> ob_sealed (c_out c) = false -> (length bufs < fuel)%nat -> exists (c' : core) (taken rest : list bytes), chan_readable fuel n c = (OOk, c') /\ bufs = taken ++ rest /\ ob (c_out c') = ob (c_out c) ++ concat taken /\ ob_sealed (c_out c') = false /\ c_phase c' = c_phase c /\ c_qs c' = c_qs c /\ c_high c' = c_high c /\ (forall k : N, k <> n -> alookup k (c_slots c') = alookup k (c_slots c)) /\ (exists s' : slot, alookup n (c_slots c') = Some s' /\ s_mail s' = map MsgSend rest) /\ (rest <> [] -> c_need c' = true /\ c_high c < out_len c').
+Theorem C18_mailbox_fifo : forall (n : N) (bufs : list bytes) (fuel : nat) (c : core) (s : slot), n <> 0 -> alookup n (c_slots c) = Some s -> s_mail s = map MsgSend bufs -> s_mail_tx s = true -> ob_sealed (c_out c) = false -> (Datatypes.length bufs < fuel)%nat -> exists (c' : core) (taken rest : list bytes), chan_readable fuel n c = (OOk, c') /\ bufs = taken ++ rest /\ ob (c_out c') = ob (c_out c) ++ concat taken /\ ob_sealed (c_out c') = false /\ c_phase c' = c_phase c /\ c_qs c' = c_qs c /\ c_high c' = c_high c /\ (forall k : N, k <> n -> alookup k (c_slots c') = alookup k (c_slots c)) /\ (exists s' : slot, alookup n (c_slots c') = Some s' /\ s_mail s' = map MsgSend rest) /\ (rest <> [] -> c_need c' = true /\ c_high c < out_len c').
 Proof. exact mailbox_fifo. Qed.
 
 (* ... and below the mark nothing is left behind: if even with everything appended the out-buffer does not exceed the high-water mark, the whole mailbox is taken in that one wake-up *)
-Theorem C18_mailbox_fifo_below_mark : forall (n : N) (bufs : list bytes) (fuel : nat) (c : core) (s : slot), n <> 0 -> alookup n (c_slots c) = Some s -> s_mail s = map MsgSend bufs -> s_mail_tx s = true -> ob_sealed (c_out c) = false -> (length bufs < fuel)%nat -> N.of_nat (length (ob (c_out c) ++ concat bufs)) <= c_high c -> exists c' : core, chan_readable fuel n c = (OOk, c') /\ ob (c_out c') = ob (c_out c) ++ concat bufs /\ (exists s' : slot, alookup n (c_slots c') = Some s' /\ s_mail s' = []).
+Theorem C18_mailbox_fifo_below_mark : forall (n : N) (bufs : list bytes) (fuel : nat) (c : core) (s : slot), n <> 0 -> alookup n (c_slots c) = Some s -> s_mail s = map MsgSend bufs -> s_mail_tx s = true -> ob_sealed (c_out c) = false -> (Datatypes.length bufs < fuel)%nat -> N.of_nat (Datatypes.length (ob (c_out c) ++ concat bufs)) <= c_high c -> exists c' : core, chan_readable fuel n c = (OOk, c') /\ ob (c_out c') = ob (c_out c) ++ concat bufs /\ (exists s' : slot, alookup n (c_slots c') = Some s' /\ s_mail s' = []).
 Proof. exact mailbox_fifo_below_mark. Qed.
 
 (* ... and what is buffered reaches the wire once, in order, across any number of stalls *)
@@ -63,7 +63,7 @@ Theorem C18_out_bounded : forall (mx bound high low : N) (ops : list wop), Foral
 Proof. exact out_bounded. Qed.
 
 (* ... and everything publishers were allowed to hand over that the socket has not taken yet (buffer + mailboxes) is bounded in terms of the tuning: high-water mark plus max(1, mem_channel_bound) messages per channel plus one message *)
-Theorem C18_backlog_bounded : forall (mx bound high low : N) (ops : list wop), Forall (op_ok mx) ops -> let w := wrun (winit bound high low) ops in backlog w <= high + mx + grown ops + N.of_nat (length (w_chans w)) * (N.max 1 bound * mx).
+Theorem C18_backlog_bounded : forall (mx bound high low : N) (ops : list wop), Forall (op_ok mx) ops -> let w := wrun (winit bound high low) ops in backlog w <= high + mx + grown ops + N.of_nat (Datatypes.length (w_chans w)) * (N.max 1 bound * mx).
 Proof. exact backlog_bounded. Qed.
 
 (* PROGRESS: a channel event that finds the buffer at or below the mark hands over at least the channel's oldest message. With C18_next_poll_reports (a channel holding a message is reported by the next poll while channels are polled), C18_throttled_has_data and C18_resume_rearms (while they are not, there is data to write, and the first tail at or below the low-water mark polls them again): every accepted message moves towards the wire as long as the transport goes on taking data *)
@@ -71,8 +71,16 @@ Theorem C18_event_progress : forall (w : wstate) (ch : N) (c : chan) (m : N) (re
 Proof. exact event_progress. Qed.
 
 (* LOSES NOTHING: a channel event hands a prefix of the mailbox to the buffer, whole and in order; the rest stays in the mailbox *)
-Theorem C18_drain_in_order : forall (fuel : nat) (high : N) (c : chan) (out : N), (length (k_mail c) < fuel)%nat -> let '(_, c', out', _) := drain fuel high c out in exists taken : list N, k_mail c = taken ++ k_mail c' /\ out' = out + sum taken.
+Theorem C18_drain_in_order : forall (fuel : nat) (high : N) (c : chan) (out : N), (Datatypes.length (k_mail c) < fuel)%nat -> let '(_, c', out', _) := drain fuel high c out in exists taken : list N, k_mail c = taken ++ k_mail c' /\ out' = out + sum taken.
 Proof. exact drain_in_order. Qed.
+
+(* THE MODEL IS THE SOURCE: Inner::deregister_nonzero_channels of src/io_loop/mod.rs as translated from the source text on every run (Gen/SrcRegister.v, tools/rs2sm.py: the `for` loop is structurally recursive on the table's entries) deregisters EVERY channel's mailbox, whatever channels_are_registered said before, then clears the flag - what the wake-up model's throttling step (ADeregister of wtail) assumes *)
+Theorem C18_deregister_source_is_model : forall (poll : val) (ids : list N) (calls : list val) (registered need : bool), gen_Inner_deregister_nonzero_channels ext_st_model (enc_self ids calls registered need) poll = (enc_self ids (calls ++ map dereg_call ids) false need, VC "Ok" [VC "()" []]).
+Proof. exact deregister_source_is_model. Qed.
+
+(* ... and reregister_nonzero_channels re-registers EVERY channel's mailbox - readable, edge-triggered, under its own id as token - whatever the flags said before, then sets channels_are_registered and clears channels_need_repoll: the re-arming (rearm_all) that AResume / ARearm rely on to re-fire a mailbox that was cut short at the high-water mark (seed C18h made both functions skip the calls when the flag already had the target value: this obligation breaks) *)
+Theorem C18_reregister_source_is_model : forall (poll : val) (ids : list N) (calls : list val) (registered need : bool), gen_Inner_reregister_nonzero_channels ext_model ext_st_model (enc_self ids calls registered need) poll = (enc_self ids (calls ++ map rereg_call ids) true false, VC "Ok" [VC "()" []]).
+Proof. exact reregister_source_is_model. Qed.
 
 (* non-vacuity: high 1000, low 0: 1001 bytes buffered throttles, 1 byte left keeps it, 0 resumes *)
 Example C18_example :
@@ -101,8 +109,8 @@ Check C18_throttles_above_high : forall (l : loop) (had : bool) (outlen high low
 Check C18_stays_throttled : forall (l : loop) (had : bool) (outlen high low : N), l_listening l = false -> low < outlen -> l_listening (fst (loop_tail l had outlen high low)) = false.
 Check C18_resumes_at_low : forall (l : loop) (had : bool) (outlen high low : N), l_listening l = false -> outlen <= low -> l_listening (fst (loop_tail l had outlen high low)) = true.
 Check C18_write_interest : forall (l : loop) (outlen outlen' high low : N), loop_inv l outlen -> let '(l', _) := loop_tail l (negb (outlen =? 0)) outlen' high low in loop_inv l' outlen'.
-Check C18_mailbox_fifo : forall (n : N) (bufs : list bytes) (fuel : nat) (c : core) (s : slot), n <> 0 -> alookup n (c_slots c) = Some s -> s_mail s = map MsgSend bufs -> s_mail_tx s = true -> ob_sealed (c_out c) = false -> (length bufs < fuel)%nat -> exists (c' : core) (taken rest : list bytes), chan_readable fuel n c = (OOk, c') /\ bufs = taken ++ rest /\ ob (c_out c') = ob (c_out c) ++ concat taken /\ ob_sealed (c_out c') = false /\ c_phase c' = c_phase c /\ c_qs c' = c_qs c /\ c_high c' = c_high c /\ (forall k : N, k <> n -> alookup k (c_slots c') = alookup k (c_slots c)) /\ (exists s' : slot, alookup n (c_slots c') = Some s' /\ s_mail s' = map MsgSend rest) /\ (rest <> [] -> c_need c' = true /\ c_high c < out_len c').
-Check C18_mailbox_fifo_below_mark : forall (n : N) (bufs : list bytes) (fuel : nat) (c : core) (s : slot), n <> 0 -> alookup n (c_slots c) = Some s -> s_mail s = map MsgSend bufs -> s_mail_tx s = true -> ob_sealed (c_out c) = false -> (length bufs < fuel)%nat -> N.of_nat (length (ob (c_out c) ++ concat bufs)) <= c_high c -> exists c' : core, chan_readable fuel n c = (OOk, c') /\ ob (c_out c') = ob (c_out c) ++ concat bufs /\ (exists s' : slot, alookup n (c_slots c') = Some s' /\ s_mail s' = []).
+Check C18_mailbox_fifo : forall (n : N) (bufs : list bytes) (fuel : nat) (c : core) (s : slot), n <> 0 -> alookup n (c_slots c) = Some s -> s_mail s = map MsgSend bufs -> s_mail_tx s = true -> ob_sealed (c_out c) = false -> (Datatypes.length bufs < fuel)%nat -> exists (c' : core) (taken rest : list bytes), chan_readable fuel n c = (OOk, c') /\ bufs = taken ++ rest /\ ob (c_out c') = ob (c_out c) ++ concat taken /\ ob_sealed (c_out c') = false /\ c_phase c' = c_phase c /\ c_qs c' = c_qs c /\ c_high c' = c_high c /\ (forall k : N, k <> n -> alookup k (c_slots c') = alookup k (c_slots c)) /\ (exists s' : slot, alookup n (c_slots c') = Some s' /\ s_mail s' = map MsgSend rest) /\ (rest <> [] -> c_need c' = true /\ c_high c < out_len c').
+Check C18_mailbox_fifo_below_mark : forall (n : N) (bufs : list bytes) (fuel : nat) (c : core) (s : slot), n <> 0 -> alookup n (c_slots c) = Some s -> s_mail s = map MsgSend bufs -> s_mail_tx s = true -> ob_sealed (c_out c) = false -> (Datatypes.length bufs < fuel)%nat -> N.of_nat (Datatypes.length (ob (c_out c) ++ concat bufs)) <= c_high c -> exists c' : core, chan_readable fuel n c = (OOk, c') /\ ob (c_out c') = ob (c_out c) ++ concat bufs /\ (exists s' : slot, alookup n (c_slots c') = Some s' /\ s_mail s' = []).
 Check C18_trace_conserves : forall (ops : list bop) (st : list N * outbuf * list N), (let '(wire, b, acc) := st in wire ++ ob b = acc) -> (fix ok (st0 : bytes * outbuf * bytes) (ops0 : list bop) {struct ops0} : Prop := match ops0 with | [] => True | o :: ops' => no_write_failure st0 o /\ ok (bstep st0 o) ops' end) st ops -> let '(wire', b', acc') := fold_left bstep ops st in wire' ++ ob b' = acc'.
 Check C18_wake_invariant : forall (mx bound high low : N) (ops : list wop), Forall (op_ok mx) ops -> J mx (wrun (winit bound high low) ops).
 Check C18_tail_leaves_wakeups : forall (mx : N) (w : wstate) (ch : N) (c : chan), J mx w -> w_pending w = [] -> let w' := snd (wtail w) in alookup ch (w_chans w') = Some c -> k_mail c <> [] -> w_listening w' = true -> k_queued c = true /\ k_ready c = true.
@@ -111,9 +119,11 @@ Check C18_throttled_has_data : forall w : wstate, w_listening (snd (wtail w)) = 
 Check C18_resume_rearms : forall (mx : N) (w : wstate) (ch : N) (c : chan), J mx w -> w_listening w = false -> w_out w <= w_low w -> let w' := snd (wtail w) in w_listening w' = true /\ w_need w' = false /\ (alookup ch (w_chans w') = Some c -> k_mail c <> [] -> k_queued c = true).
 Check C18_event_bounded : forall (mx : N) (w : wstate) (ch : N), J mx w -> w_out (snd (wevent w ch)) <= N.max (w_out w) (w_high w + mx).
 Check C18_out_bounded : forall (mx bound high low : N) (ops : list wop), Forall (op_ok mx) ops -> w_out (wrun (winit bound high low) ops) <= high + mx + grown ops.
-Check C18_backlog_bounded : forall (mx bound high low : N) (ops : list wop), Forall (op_ok mx) ops -> let w := wrun (winit bound high low) ops in backlog w <= high + mx + grown ops + N.of_nat (length (w_chans w)) * (N.max 1 bound * mx).
+Check C18_backlog_bounded : forall (mx bound high low : N) (ops : list wop), Forall (op_ok mx) ops -> let w := wrun (winit bound high low) ops in backlog w <= high + mx + grown ops + N.of_nat (Datatypes.length (w_chans w)) * (N.max 1 bound * mx).
 Check C18_event_progress : forall (w : wstate) (ch : N) (c : chan) (m : N) (rest : list N), In ch (w_pending w) -> alookup ch (w_chans w) = Some c -> k_mail c = m :: rest -> w_out w <= w_high w -> exists (c' : chan) (more : list N), alookup ch (w_chans (snd (wevent w ch))) = Some c' /\ rest = more ++ k_mail c' /\ w_out (snd (wevent w ch)) = w_out w + m + sum more.
-Check C18_drain_in_order : forall (fuel : nat) (high : N) (c : chan) (out : N), (length (k_mail c) < fuel)%nat -> let '(_, c', out', _) := drain fuel high c out in exists taken : list N, k_mail c = taken ++ k_mail c' /\ out' = out + sum taken.
+Check C18_drain_in_order : forall (fuel : nat) (high : N) (c : chan) (out : N), (Datatypes.length (k_mail c) < fuel)%nat -> let '(_, c', out', _) := drain fuel high c out in exists taken : list N, k_mail c = taken ++ k_mail c' /\ out' = out + sum taken.
+Check C18_deregister_source_is_model : forall (poll : val) (ids : list N) (calls : list val) (registered need : bool), gen_Inner_deregister_nonzero_channels ext_st_model (enc_self ids calls registered need) poll = (enc_self ids (calls ++ map dereg_call ids) false need, VC "Ok" [VC "()" []]).
+Check C18_reregister_source_is_model : forall (poll : val) (ids : list N) (calls : list val) (registered need : bool), gen_Inner_reregister_nonzero_channels ext_model ext_st_model (enc_self ids calls registered need) poll = (enc_self ids (calls ++ map rereg_call ids) true false, VC "Ok" [VC "()" []]).
 
 Print Assumptions C18_throttle_spec.
 Print Assumptions C18_throttles_above_high.
@@ -133,5 +143,7 @@ Print Assumptions C18_out_bounded.
 Print Assumptions C18_backlog_bounded.
 Print Assumptions C18_event_progress.
 Print Assumptions C18_drain_in_order.
+Print Assumptions C18_deregister_source_is_model.
+Print Assumptions C18_reregister_source_is_model.
 Print Assumptions C18_example.
 Print Assumptions C18_example_wake.
